@@ -148,8 +148,12 @@ class TypedGen:
         elif k == "call":
             e = p.Call(V["f"], (g(), g()))
         elif k == "callkw":
-            kw = {"k": g(), "j": g()} if r.random() < 0.5 else {"j": g(), "k": g()}
-            e = p.CallWithKwargs(V["g"], (g(),), immutabledict(kw))
+            if r.random() < 0.3:    # a callee that sees the ORDER of its keywords
+                kw = {"zeta": g(), "alpha": g()} if r.random() < 0.7 else {"b": g(), "zeta": g()}
+                e = p.CallWithKwargs(p.Variable("h"), (g(),), immutabledict(kw))
+            else:
+                kw = {"k": g(), "j": g()} if r.random() < 0.5 else {"j": g(), "k": g()}
+                e = p.CallWithKwargs(V["g"], (g(),), immutabledict(kw))
         elif k == "sub":
             e = p.Subscript(V["a"], p.Remainder(g(), 3))
         elif k == "subl":
@@ -258,10 +262,18 @@ def fn_g(a, k=0, j=1):
     return a + 3 * k - j
 
 
+def fn_h(a, **kw):
+    """sees the ORDER of its keywords (PEP 468): the i-th keyword given weighs i + 2"""
+    out = a
+    for i, (k, v) in enumerate(kw.items()):
+        out = out + (i + 2) * v * (1 + len(k) % 3)
+    return out
+
+
 def base_env(x, y, z, s=1, t=True):
     m = np.empty((2, 2), dtype=object)
     m[0, 0], m[0, 1], m[1, 0], m[1, 1] = 4, -1, 7, 2
-    return {"x": x, "y": y, "z": z, "s": s, "t": t, "f": fn_f, "g": fn_g,
+    return {"x": x, "y": y, "z": z, "s": s, "t": t, "f": fn_f, "g": fn_g, "h": fn_h,
             "a": [7, -8, 9], "m": m, "o": Obj(6)}
 
 
@@ -315,6 +327,7 @@ class AnyGen:
         self.leaf_extra = leaf_extra
         self.pool = []
         self.hist = hist
+        self.falsy_p = 0.04
 
     def leaf(self):
         r = self.r
@@ -338,6 +351,16 @@ class AnyGen:
         if self.pool and r.random() < self.share_p:
             e = r.choice(self.pool)
             return e if r.random() < 0.5 else _rebuild(e)
+        if r.random() < self.falsy_p:
+            # composite nodes that are FALSE in a boolean context (bool(Product((0, x))) is
+            # False) and still mention a variable: `if child:`, `filter(None, ...)` and
+            # `child or default` all mistake them for an omitted operand
+            v = p.Variable(r.choice(self.names))
+            e = r.choice([p.Product((0, v)), p.Quotient(0, v), p.Sum((p.Product((v, 0)),)),
+                          p.FloorDiv(0, v), p.Remainder(p.Product((0, v)), 3)])
+            if self.hist is not None:
+                self.hist["falsy-composite"] += 1
+            return e
         k = r.choice(self.kinds)
         g = lambda: self.gen(d - 1)  # noqa: E731
         nary = {"sum": p.Sum, "prod": p.Product, "bor": p.BitwiseOr, "bxor": p.BitwiseXor,
